@@ -1,0 +1,34 @@
+//go:build verif
+
+package router
+
+import (
+	"context"
+	"errors"
+)
+
+// Add-only hook for the C17 correspondence check (kind uprouter): a REAL router started by run() from a
+// Config with several upstream entries; every upstream it registered can then be driven on its own
+// (upstreamWrapper.Exchange), so that the verdict of each entry is observed with the other entries present.
+
+type VerifC17Router struct{ r *router }
+
+// VerifC17RunRouter is run(cfg).
+func VerifC17RunRouter(cfg *Config) (*VerifC17Router, error) {
+	r, err := run(context.Background(), cfg)
+	if err != nil {
+		return nil, err
+	}
+	return &VerifC17Router{r: r}, nil
+}
+
+// Upstream returns the upstream registered under tag (nil if there is none).
+func (v *VerifC17Router) Upstream(tag string) *VerifC17Upstream {
+	w := v.r.upstreams[tag]
+	if w == nil {
+		return nil
+	}
+	return &VerifC17Upstream{w: w}
+}
+
+func (v *VerifC17Router) Close() { v.r.close(errors.New("verif: close")) }
